@@ -53,5 +53,30 @@ CHECKS = {
         "note": PLANNER_NOTE + " The float-level steer law (eps) is a sampled bound, the SO(3) LERP branch deviates by up to 1.1e-6.",
         "technique": "Coq proof (link invariant carrying step-length facts) + correspondence by vm_compute",
     },
+    "C07": {
+        "category": "proof",
+        "text": "Theorems C07_* (coq/Props/C07.v): the model makes the provenance of every random draw explicit (seeded generator vs. any "
+                "OS-/thread-seeded one). For every call history, two runs whose oracles agree on the seeded stream but differ arbitrarily on "
+                "all other generators yield identical states and responses (until a call panics); iteration budgets (the wall clock) only "
+                "truncate the same decision sequence (prefix lemmas). The tie to the code: every observed draw of the real planners is located "
+                "in the reference StdRng stream and must be where the model predicts (a hidden rand::rng()/from_os_rng() or a generator that "
+                "is not handed back shows as a foreign draw); plus a two-instance differential on every seeded case.",
+        "design_ref": "DESIGN.md section 7 C07",
+        "note": PLANNER_NOTE + " ChaCha12/StdRng is an opaque deterministic stream read from the real crate; hash-order dependence would show only as divergent traces.",
+        "technique": "Coq proof (oracle-independence over API histories) + draw-provenance correspondence + two-instance differential",
+    },
+    "C08": {
+        "category": "proof",
+        "text": "Theorems C08_* (coq/Props/C08.v): in any state without an installed problem solve answers PlannerUninitialised (PRM: also "
+                "construct_roadmap), a PRM query on an empty roadmap answers UnsampledStateSpace, invalid starts answer InvalidStartState "
+                "(C01) and successful solves answer the latest problem (C02); for well-formed inputs (total samplers, goal bias in [0,1], "
+                "non-empty start list) no call of RRT / RRT-Connect ever panics or fails to return, for every call history (panics are "
+                "first-class outcomes of the model: unwrap, index, random_bool). Outside well-formedness the model - and the code - "
+                "panic: C08_refuted_* witnesses = the known findings. Correspondence on call scripts with sampler faults at the k-th call, "
+                "out-of-range bias and empty start lists: panic/no-panic and error kind must match the model.",
+        "design_ref": "DESIGN.md section 7 C08, section 8 row 7",
+        "note": PLANNER_NOTE + " The never-panics theorem is proved for RRT and RRT-Connect; RRT* and PRM are covered by the correspondence and the panic-capturing oracle only.",
+        "technique": "Coq proof (panics as outcomes; invariant over API histories) + correspondence on fault-injected call scripts",
+    },
 }
 NOT_APPLICABLE = {}
